@@ -454,6 +454,7 @@ func commentDigest(u types.Universe, pkgs map[string]bool) string {
 	for path, p := range u {
 		if pkgs[path] {
 			lines = append(lines, fmt.Sprintf("package %s: name %q, directory known: %v", path, p.Name, c11dirOf(p) != ""))
+			lines = append(lines, fmt.Sprintf("package %s: doc.go comments %q, doc comment %q", path, p.Comments, p.DocComments))
 			if c11dirOf(p) == "" {
 				lines = append(lines, "REQUESTED PACKAGE WITHOUT DIRECTORY "+path)
 			}
